@@ -69,6 +69,7 @@ def obsRecords : List Nat → List Att → List String
       s!"{a.idx}:{a.host}:{showRes a.res}:{(prev.filter (· == a.host)).length + 1}" :: obsRecords (a.host :: prev) as
 
 structure Scn where
+  kx : Option Nat := none       -- the statement's context ends in Mark after the attempt of this request
   req : Req
   pol : Option Policy
   ctxErr : String
@@ -126,11 +127,11 @@ def showRun (s : Scn) (r : Run) (k0 : Nat) (prevHosts : List Nat) (anySent : Boo
   " final=" ++ showFinal s.ctxErr (k0 + r.sent.length - 1) r.out.final
 
 def runScn (s : Scn) (c0 : Nat) (pre : Bool) (reps : Nat) : String :=
-  let r1 := execute s.req s.pol s.outcome s.us 64 s.ids 0 0 c0 pre
+  let r1 := executeX s.req s.pol s.outcome s.us 64 s.ids 0 0 c0 pre s.kx
   let s1 := showRun s r1 0 [] false
   if reps < 2 then s1
   else
-    let r2 := execute s.req s.pol s.outcome s.us 64 s.ids r1.sent.length r1.out.cnt r1.out.cons r1.ctxDone
+    let r2 := executeX s.req s.pol s.outcome s.us 64 s.ids r1.sent.length r1.out.cnt r1.out.cons r1.ctxDone s.kx
     s1 ++ " | " ++ showRun s r2 r1.sent.length (r1.out.attempts.map (·.host)).reverse (!r1.sent.isEmpty)
 
 def decoyPolicy : Policy := simplePolicy 7
@@ -167,7 +168,13 @@ def exOpCore (kind ctor pol polAt obs ctx cons reps hosts outs env : String) : S
     let stmtObs : Option (Option Unit) := if obs == "q" || obs == "o" then some (some ()) else none
     let w0 := applyActs ((ev.filter (·.init)).filterMap (envAct hostSpecs)) hs
     let script : Nat → List (EnvAct × Nat) := fun j => (ev.filter fun t => !t.init && t.after == j).filterMap (envAct hostSpecs)
+    -- `<k>x<any>`: the statement's context (if it has one that can end) ends in Mark after the attempt of request k
+    let xs := (ev.filter fun t => !t.init && t.act == 'x').map (·.after)
+    let kx : Option Nat := if ctx == "-" then none else xs.foldl (fun (m : Option Nat) v => match m with
+      | none => some v
+      | some w => some (min v w)) none
     let scn : Scn := {
+      kx := kx,
       req := ⟨k, (effective fromSession sessObs stmtObs).isSome⟩,
       pol := effective fromSession sessPol stmtPol,
       ctxErr := if ctx == "d" || ctx == "pd" then "deadline" else "canceled",
@@ -198,6 +205,190 @@ def limitOf (s : String) : Option Nat :=
 
 /-- policies that never answer `Retry` (same host): every request takes a fresh host from the shared iterator -/
 def nextHostOnly (s : String) : Bool := s == "none" || s.startsWith "simple:" || s.startsWith "exp:"
+
+/-! ### `specc`: speculative executions stepped one micro-step at a time, with cancellation at any point — the op
+    line is the observed history; it is replayed through `ExecutorConc.stepC` and every observation is compared with
+    what the machine does (theorems C13_cancel_stops_requests_partial, C13_caller_cancel_stops_requests,
+    C13_query_result_stops_requests, C13_first_result_wins, C13_result_iff_completed, C13_cancel_budget) -/
+
+structure CReplay where
+  k : ExecutorConc.MK
+  hostOf : List Nat            -- host (1-based position in the iterator's order) of each execution's last attempt
+  gotR : Bool := false
+  bad : Option String := none
+
+def showCRes : ExecutorConc.CRes → String
+  | .res .ok => "ok" | .res .logical => "l" | .res (.err k) => s!"e{k}" | .noConn => "noconn" | .unknownRT => "unknownrt"
+
+def parseCRes (s : String) : Option Res :=
+  if s == "ok" then some .ok else if s == "l" then some .logical else parseRes s
+
+/-- position (1-based) in the offered order of the j-th USABLE host (j ≥ 1); the unusable ones — a SelectedHost
+    without HostInfo (`0`), a host whose pool has no connection (`c`) — are skipped by the loop head of `do`
+    without consuming anything -/
+def realHost (mask : List Char) (j : Nat) : Nat :=
+  let rec go : List Char → Nat → Nat → Nat
+    | [], _, pos => pos
+    | ch :: rest, need, pos =>
+        if ch == '1' then (if need ≤ 1 then pos + 1 else go rest (need - 1) (pos + 1)) else go rest need (pos + 1)
+  go mask j 0
+
+/-- what the harness sees when execution `i` takes the step that leads from `k` to `k'`: a request arriving at a
+    host with a consistency level, an attempt that reached no server, or the execution ending -/
+def stepSeen (mask : List Char) (k k' : ExecutorConc.MK) (i : Nat) (hostOf : List Nat) : String × Nat :=
+  let c := k.c
+  let c' := k'.c
+  let nhosts := (mask.filter (· == '1')).length
+  match c'.m.exs[i]? with
+  | some .inflight =>
+      let h := if c'.m.left < c.m.left then realHost mask (nhosts - c.m.left + 1) else hostOf.getD i 0
+      (s!"s{h}@{k'.reqCons.headD 0}", h)
+  | some .done =>
+      -- an attempt that reached no server was counted (and, taken from the iterator, has used up a host)
+      if c'.m.cnt > c.m.cnt then ("d", if c'.m.left < c.m.left then realHost mask (nhosts - c.m.left + 1) else hostOf.getD i 0)
+      else ("e", hostOf.getD i 0)
+  | _ => ("?", hostOf.getD i 0)
+
+def replayTok (pol : Option Policy) (derived : Bool) (mask : List Char) (e : Nat) (st : CReplay) (tok : String) : CReplay :=
+  if st.bad.isSome then st
+  else
+    let fail (why : String) : CReplay := { st with bad := some s!"{why}@{tok}" }
+    let c := st.k.c
+    match tok.splitOn ":" with
+    | ["X"] => { st with k := ExecutorConc.stepK pol derived st.k .callerCancel }
+    | ["R", res] =>
+        if st.gotR then fail "second-result"
+        else match c.result with
+          | none => fail "result-before-any-completion"
+          | some r =>
+            if showCRes r != res then fail s!"not-the-first-result:{showCRes r}"
+            else { st with k := ExecutorConc.stepK pol derived st.k .execCancel, gotR := true }
+    | [a, out] =>
+        let kind := a.toList.headD ' '
+        match (String.ofList (a.toList.drop 1)).toNat? with
+        | none => fail "bad-token"
+        | some i =>
+          if i ≥ e then fail "too-many-executions"
+          else if kind == 'L' || kind == 'D' then
+            let okState := match c.m.exs[i]?, kind with
+              | some .idle, 'L' => true
+              | some (.counted _), 'D' => true
+              | _, _ => false
+            if !okState then fail "step-not-enabled"
+            else
+              let k' := ExecutorConc.stepK pol derived st.k (.ex (if kind == 'L' then .launch i else .decide i))
+              let (want, h) := stepSeen mask st.k k' i st.hostOf
+              if want != out then
+                -- a request where the machine sends none, after the context of the attempts is done
+                if c.attDone derived && out.startsWith "s" then fail s!"request-after-cancellation:{want}"
+                else fail s!"expected:{want}"
+              else { st with k := k', hostOf := st.hostOf.set i h }
+          else if kind == 'C' || kind == 'c' then
+            match c.m.exs[i]?, parseCRes out with
+            | some .inflight, some r =>
+                if r == .logical && !c.attDone derived then fail "context-error-without-cancellation"
+                else { st with k := ExecutorConc.stepK pol derived st.k (.ex (.complete i r)) }
+            | _, _ => fail "completion-not-enabled"
+          else fail "bad-token"
+    | _ => fail "bad-token"
+
+def speccOp (kind idem pol a nh cons0 events nreq att obsInfo consEnd : String) : String :=
+  let mask := nh.toList
+  match parseKind kind, stmtIdempotent kind idem, parsePolicy pol, a.toNat?,
+        (if mask.all (fun ch => ch == '1' || ch == '0' || ch == 'c') then some (mask.filter (· == '1')).length else none),
+        nreq.toNat?, att.toNat?, cons0.toNat?, consEnd.toNat? with
+  | some k, some idm, some p, some sa, some hosts, some n, some cntEnd, some cs0, some csEnd =>
+    let e := maxExecutions idm sa
+    -- `Conn.executeQuery` runs the attempt under the executor's context, `Conn.executeBatch` under `batch.Context()`
+    let derived := k == .query
+    let toks := events.splitOn ","
+    let arrived := (toks.filterMap fun t => if t.startsWith "A" then (t.drop 1).toNat? else none).headD 0
+    let st0 : CReplay := { k := ExecutorConc.initK 0 hosts e cs0, hostOf := List.replicate e 0 }
+    let st := (toks.filter fun t => !t.startsWith "A").foldl (replayTok p derived mask e) st0
+    if arrived > e then s!"reject:too-many-executions:{arrived}"
+    else match st.bad with
+    | some why => s!"reject:{why}"
+    | none =>
+      let m := st.k.c.m
+      if !st.gotR then "reject:no-result"
+      else if !((List.range arrived).all fun i => m.exs[i]? == some .done) then "reject:execution-not-finished"
+      else if n != m.sent then s!"reject:requests:{n}!={m.sent}"
+      else if cntEnd != m.cnt then s!"reject:attempts:{cntEnd}!={m.cnt}"
+      else if obsInfo != (if m.cnt == 0 then "none" else s!"0-{m.cnt - 1}") then s!"reject:attempt-numbers:{obsInfo}"
+      else if csEnd != st.k.cons then s!"reject:consistency-afterwards:{csEnd}!={st.k.cons}"
+      else "accept"
+  | _, _, _, _, _, _, _, _, _ => "bad-op"
+
+/-! ### `rt` / `att`: the built-in policies' GetRetryType / Attempt on error values and attempt counts -/
+
+def parseWriteType : String → WriteType
+  | "SIMPLE" => .simple | "BATCH" => .batch | "COUNTER" => .counter | "UNLOGGED_BATCH" => .unloggedBatch
+  | "BATCH_LOG" => .batchLog | "CAS" => .cas | "VIEW" => .view | "CDC" => .cdc | _ => .other
+
+def parseReqErr (s : String) : Option ReqErr :=
+  match s.splitOn ":" with
+  | ["un", r, a] => do pure (.unavailable (← r.toNat?) (← a.toNat?))
+  | ["wt", t, r, b] => do pure (.writeTimeout (parseWriteType t) (← r.toNat?) (← b.toNat?))
+  | ["rto", r, b, d] => do pure (.readTimeout (← r.toNat?) (← b.toNat?) (d != "0"))
+  | ["other", _] => some .other
+  | _ => none
+
+def showRT : RT → String
+  | .retry => "retry" | .rethrow => "rethrow" | .ignore => "ignore" | .nextHost => "nexthost" | .unknown => "unknown"
+
+def rtOp (pol err : String) : String :=
+  match parseReqErr err with
+  | none => "bad-op"
+  | some e =>
+    if pol == "down" then showRT (downgradingGetRetryType e)
+    else if pol == "simple" || pol == "exp" then showRT (simpleGetRetryType e)
+    else "bad-op"
+
+def attOp (pol att c0 : String) : String :=
+  match att.toNat?, c0.toNat? with
+  | some n, some c =>
+    let r : Option (Bool × Option Nat) := match pol.splitOn ":" with
+      | ["down", ls] =>
+          if ls == "-" then some (downgradingAttempt [] n)
+          else ((ls.splitOn ".").mapM String.toNat?).map fun l => downgradingAttempt l n
+      | ["simple", k] => k.toNat?.map fun k => simpleAttempt k n
+      | ["exp", k] => k.toNat?.map fun k => simpleAttempt k n
+      | _ => none
+    match r with
+    | some (ok, nc) => s!"{ok} cons={nc.getD c} sets={if nc.isSome then 1 else 0}"
+    | none => "bad-op"
+  | _, _ => "bad-op"
+
+/-! ### `met`: the statement's metrics recomputed from the attempts' hosts and latencies (C13_metrics_exact) -/
+
+def parseNats (s : String) : Option (List Nat) := (s.splitOn ":").mapM String.toNat?
+
+def metOp (recs ends : String) : String :=
+  let rs : Option (List (List Nat)) := if recs == "-" then some [] else (recs.splitOn ",").mapM parseNats
+  match rs, (ends.splitOn ",").mapM parseNats with
+  | some rs, some es =>
+    if !(rs.all fun r => r.length == 7) || !(es.all fun e => e.length == 3) then "bad-op"
+    else
+      let hist : List (Nat × Nat) := rs.map fun r => (r.getD 0 0, r.getD 1 0)
+      let (_, obs) := QM.run {} hist
+      -- every observer record against the model's
+      let badRec := (List.range rs.length).find? fun i =>
+        let r := rs.getD i []
+        let o := obs.getD i ⟨0, 0, 0⟩
+        -- … and the Metrics value handed over is a snapshot: read again later it still says the same
+        !(r.getD 2 0 == o.hostAttempts && r.getD 3 0 == o.hostTotal && r.getD 4 0 == o.idx &&
+          r.getD 5 0 == o.hostAttempts && r.getD 6 0 == o.hostTotal)
+      match badRec with
+      | some i => s!"reject:observer-record:{i}"
+      | none =>
+        -- after every execution: Attempts() and Latency()
+        let badEnd := es.find? fun e =>
+          let q := (QM.run {} (hist.take (e.getD 0 0))).1
+          !(e.getD 2 0 == q.totalAttempts && e.getD 1 0 == q.latency)
+        match badEnd with
+        | some e => s!"reject:after-execution:{e.getD 0 0}"
+        | none => "accept"
+  | _, _ => "bad-op"
 
 def step (_ : Unit) (ws : List String) : Unit × String :=
   ((), match ws with
@@ -244,6 +435,22 @@ def step (_ : Unit) (ws : List String) : Unit × String :=
             s!"reject:attempt-numbers:{obsInfo}"
           else "accept"
       | _, _, _, _, _, _, _ => "bad-op"
+  | ["specc", kind, idem, pol, a, nh, _ctx, cons0, events, nreq, att, obsInfo, consEnd] =>
+      speccOp kind idem pol a nh cons0 events nreq att obsInfo consEnd
+  | ["met", _kind, recs, ends] => metOp recs ends
+  | ["rt", pol, err] => rtOp pol err
+  | ["att", pol, att, c0] => attOp pol att c0
+  | ["kf-down-unlogged"] =>
+      -- proposed finding KF-C13-3 (theorem C13_cex_downgrading_unlogged_unacked)
+      "code=" ++ showRT (downgradingGetRetryType (.writeTimeout .unloggedBatch 0 1)) ++ " documented=" ++
+        ((Spec.downgradingDoc (.writeTimeout .unloggedBatch 0 1)).map showRT).getD "-"
+  | ["kf-batch-loser"] =>
+      -- proposed finding KF-C13-2 (theorem C13_cex_batch_loser_not_cancelled): the executor's cancellation does not
+      -- reach a batch's attempts
+      let c := ExecutorConc.runC (some (simplePolicy 2)) false (ExecutorConc.initC 0 3 2)
+        [.ex (.launch 0), .ex (.launch 1), .ex (.complete 0 .ok), .ex (.decide 0), .execCancel]
+      let c' := ExecutorConc.runC (some (simplePolicy 2)) false c [.ex (.complete 1 (.err 9)), .ex (.decide 1)]
+      s!"sent-after-result={c'.m.sent - c.m.sent}"
   | ["kf-d10"] =>
       -- known finding KF-C13-1: the attempts do not depend on idempotence
       let out := doQuery ⟨.query, false⟩ (some (simplePolicy 1)) (fun _ => .err 9) (fun _ _ => true) 10 [1, 2] 0 0 1
